@@ -73,7 +73,7 @@ def sym_main():
     names = ['x%d' % i for i in U] + ['y%d' % i for i in U]
     bad = 0
     total = 0
-    for name in ('sym_union_diff', 'sym_discard_remove', 'sym_remove_raises', 'sym_worklist', 'sym_dict_groups', 'sym_comprehensions', 'sym_early_exit', 'sym_try_flow', 'sym_iter_stack_dfs', 'sym_reversed_queue', 'sym_getattr_default', 'sym_global_state', 'sym_operator_reduce', 'sym_reduce_guarded', 'sym_genexp_raise'):
+    for name in ('sym_union_diff', 'sym_discard_remove', 'sym_remove_raises', 'sym_worklist', 'sym_dict_groups', 'sym_comprehensions', 'sym_early_exit', 'sym_try_flow', 'sym_iter_stack_dfs', 'sym_reversed_queue', 'sym_getattr_default', 'sym_global_state', 'sym_operator_reduce', 'sym_reduce_guarded', 'sym_genexp_raise', 'sym_first_free_name'):
         fn = getattr(idioms, name)
         nargs = fn.__code__.co_argcount
         see.reset()
